@@ -15,6 +15,24 @@ EXPLANATION = (
 ASSUMPTIONS = ["urllib / requests send exactly the method, url, headers and body they are given (trusted library semantics)", "OFXClient subclasses outside the package are out of scope"]
 
 
+def _profile_freshness(project, rep):
+    """credentialed requests are routed by the profile request_profile() returns: it must be the one the server
+    just sent (status 0) / the cached one only when the server says it is current (status 1).  Decided by the path rules
+    of the cache family (K-R1) on the same flattened method; only these three obligations are taken over."""
+    from .. import report as R
+    from .. import rules_cache as K
+
+    rep.rule("N-R10", "the service URLs come from the current profile: request_profile() returns the server's new profile when it sent one and the cached copy only on 'up to date', rewound (K-R1 return rules)")
+    tmp = R.Report(rep.prop, rep.tier)
+    tmp.run(K.k_rules, project, tmp)
+    wanted = ("request_profile:fresh-profile-returned", "request_profile:up-to-date-returns-cached", "request_profile:returned-stream-rewound")
+    got = [o for o in tmp.obligations if o.construct in wanted]
+    for o in got:
+        rep.check("N-R10", o.construct, o.ok, o.detail, o.loc)
+    if not got:
+        rep.note("N-R10 undecided: the return rules of request_profile produced no verdict")
+
+
 def run(project, rep):
     rep.run(N.n_r1_sinks, project, rep)
     rep.run(N.n_r2_dryrun, project, rep)
@@ -26,3 +44,4 @@ def run(project, rep):
     rep.run(N.n_r7c_service_urls, project, rep)
     rep.run(N.n_r8_cookies, project, rep)
     rep.run(N.n_r9_constructor_params, project, rep)
+    rep.run(_profile_freshness, project, rep)
